@@ -20,13 +20,22 @@ THEOREMS = [
     'Lcdb.C02.bad4_rejected',
     'Lcdb.C02.bad4_loses',
     'Lcdb.Disk.conforms_prefix',
+    'Lcdb.C08.sync_not_in_nonsync_group',
 ]
-IMPORTS = ['LcdbModel.Props.C02']
-TARGETS = ['LcdbModel.Props.C02']
+IMPORTS = ['LcdbModel.Props.C02', 'LcdbModel.Props.C08']
+TARGETS = ['LcdbModel.Props.C02', 'LcdbModel.Props.C08', 'conccheck']
+
+
+def group_commit(chk, tier):
+    # with several writer threads a sync write may be committed by another thread (the group leader): the leader must have
+    # fsynced the log before the sync write is acknowledged (Conc model: a sync writer never joins a non-sync leader's group)
+    import conccheck
+    from vlib import Rng
+    conccheck.conc_part(chk, tier, Rng(chk.seed).fork('C02conc'), {'syncdurable'}, scale=0.4)
 
 
 def run(tier):
-    return crashcheck.run_crash(PID, tier, TAGS, THEOREMS, IMPORTS, TARGETS, '1234', 'follow', quick=(8, 30, 28))
+    return crashcheck.run_crash(PID, tier, TAGS, THEOREMS, IMPORTS, TARGETS, '1234', 'follow', quick=(8, 30, 28), extra=group_commit)
 
 
 def replay(path):
